@@ -6,7 +6,9 @@ from props import httpcommon as hc
 from props import cachefam as cf
 
 RESP_FORBID = ['no-store', 'private', 'No-Store', 'PRIVATE', 'max-age=100, no-store', 'no-store, max-age=100', ' private ,max-age=60', 'max-age=3600,private', 'public, no-store',
-               'no-store="x"' , 'max-age=60 , no-store', 'must-revalidate, private', 'no-cache, no-store']
+               'no-store="x"' , 'max-age=60 , no-store', 'must-revalidate, private', 'no-cache, no-store',
+               # private with an unquoted or unterminated argument (RFC 9111 5.2.2.7 tells recipients to accept the token form) is still private
+               'private=set-cookie, max-age=300', 'max-age=300, private=x', 'PRIVATE=Set-Cookie', 'private="set-cookie', 'private=, max-age=60']
 RESP_OK = ['max-age=1000', 'public, max-age=1000', 's-maxage=1000', 'max-age=1000, must-revalidate']
 REQ_NOSTORE = ['no-store', 'No-Store', 'max-age=100, no-store', ' no-store', 'no-store, no-transform']
 
